@@ -242,6 +242,18 @@ func (pConn *PFCPConn) handleAssociationReleaseRequest(msg message.Message) (mes
 	return arres, nil
 }
 
+// pfdContents decodes a PFD Contents IE. go-pfcp slices the payload by its embedded length
+// fields without checking them, so a corrupted IE makes it panic; report that as an error.
+func pfdContents(pfdContent *ie.IE) (fields *ie.PFDContentsFields, err error) {
+	defer func() {
+		if r := recover(); r != nil {
+			fields, err = nil, errUnmarshal(errors.New("malformed PFD Contents"))
+		}
+	}()
+
+	return pfdContent.PFDContents()
+}
+
 func (pConn *PFCPConn) handlePFDMgmtRequest(msg message.Message) (message.Message, error) {
 	pfdmreq, ok := msg.(*message.PFDManagementRequest)
 	if !ok {
@@ -282,7 +294,7 @@ func (pConn *PFCPConn) handlePFDMgmtRequest(msg message.Message) (message.Messag
 		}
 
 		for _, pfdContent := range pfdCtx {
-			fields, err := pfdContent.PFDContents()
+			fields, err := pfdContents(pfdContent)
 			if err != nil {
 				pConn.RemoveAppPFD(id)
 				return errUnmarshalReply(err, appIDPFD)
